@@ -684,6 +684,36 @@ var mpxPanics = map[string]string{
 	"mpx.clientConns.roundRobin": "",
 }
 
+// panicHosts: fn is an unexported helper whose every caller is an allow-listed function (channel.acquire and
+// channel.tryAcquire sharing channel.acquiredState): the panic it contains is the panic of those functions.
+func panicHosts(fn *ssa.Function, depth int) []string {
+	if fn.Parent() != nil || token.IsExported(fn.Name()) || depth >= 2 {
+		return nil
+	}
+	sites, escapes := sitesOf(fn)
+	if escapes || len(sites) == 0 {
+		return nil
+	}
+	var out []string
+	for _, s := range sites {
+		caller := s.Parent()
+		for caller.Parent() != nil {
+			caller = caller.Parent()
+		}
+		base := fnKey(caller)
+		if why := mpxPanics[base]; why != "" {
+			out = append(out, base)
+			continue
+		}
+		up := panicHosts(caller, depth+1)
+		if len(up) == 0 {
+			return nil
+		}
+		out = append(out, up...)
+	}
+	return uniq(out)
+}
+
 func runR06_5(c *Ctx, r *R) {
 	for _, fn := range c.SrcFuncs("mpx") {
 		pos := c.Fset.Position(fn.Pos())
@@ -704,6 +734,8 @@ func runR06_5(c *Ctx, r *R) {
 			base := strings.SplitN(fnKey(fn), "$", 2)[0]
 			if why, ok := mpxPanics[base]; ok && why != "" {
 				r.OK(key, p.Pos(), "allow-listed: %s", why)
+			} else if hosts := panicHosts(fn, 0); len(hosts) > 0 {
+				r.OK(key, p.Pos(), "helper called only from allow-listed %v: %s", hosts, mpxPanics[hosts[0]])
 			} else {
 				r.Bad(key, p.Pos(), "explicit panic in package mpx that is not in the reasoned allow-list: a library panic on the receive/send path tears down the connection (or the process) instead of affecting one channel")
 			}
@@ -949,14 +981,15 @@ func runR20_5(c *Ctx, r *R) {
 		if f == nil {
 			continue
 		}
-		_, res := mustCalls(f)
 		key := fnKey(f) + "/closes-state"
 		ok, nRet := true, 0
-		for _, ret := range returnsOf(f) {
-			if ret.Block() == f.Recover {
-				continue
+		flows := map[*ssa.Function]*FlowResult{}
+		for _, ret := range effectiveReturns(f) {
+			g := ret.Parent()
+			if flows[g] == nil {
+				_, flows[g] = mustCalls(g)
 			}
-			fa := res.At(ret)
+			fa := flows[g].At(ret)
 			if fa == nil {
 				continue
 			}
